@@ -270,6 +270,31 @@ class CFG:
         return results
 
 
+def function_path_counts(g, pred):
+    """Numbers of pred-nodes on the acyclic paths from the entry of the function graph g to its exits, as a set of
+    (count, how) with how in {"return", "raise"}; loops are traversed at most once."""
+    results = set()
+    entry = [n.id for n in g.nodes if n.kind == "entry"]
+    if not entry:
+        return results
+
+    def walk(nid, cnt, seen, depth):
+        if len(results) > 200 or depth > 400:
+            return
+        node = g.nodes[nid]
+        c2 = cnt + (1 if (node.stmt is not None and node.kind != "entry" and pred(node)) else 0)
+        if not node.succ:
+            results.add((c2, "raise" if node.kind in ("raise", "exit:raise") or "raise" in node.kind else "return"))
+            return
+        for lab, b in node.succ:
+            if b in seen:
+                continue
+            walk(b, c2, seen | {b}, depth + 1)
+
+    walk(entry[0], 0, {entry[0]}, 0)
+    return results
+
+
 def calls_in(node):
     """ast.Call nodes inside a statement node (not descending into nested function definitions or, for
     compound statements, their bodies)."""
